@@ -3,6 +3,7 @@
 package stmts
 
 import (
+	"os"
 	"sort"
 	"strings"
 
@@ -125,6 +126,37 @@ func classify(sql, origin string) (Stmt, bool) {
 	return st, true
 }
 
+// extra returns the model statements a driver supplied through the file named by VERIF_EXTRA_STMTS (one per
+// line; written by gram.ExportForms), restricted to those that satisfy Base's side condition: no
+// statement-starting keyword after the first token.
+func extra() []string {
+	path := os.Getenv("VERIF_EXTRA_STMTS")
+	if path == "" {
+		return nil
+	}
+	b, err := os.ReadFile(path)
+	if err != nil {
+		return nil
+	}
+	var out []string
+	for _, l := range strings.Split(string(b), "\n") {
+		l = strings.TrimSpace(l)
+		if l == "" {
+			continue
+		}
+		ok := true
+		for i, w := range strings.Fields(l) {
+			if i > 0 && startKeywords[strings.ToUpper(strings.Trim(w, "(),;"))] {
+				ok = false
+			}
+		}
+		if ok {
+			out = append(out, l)
+		}
+	}
+	return out
+}
+
 // Excluded counts candidate segments dropped because their strict parse depends on the separator.
 var Excluded int
 
@@ -145,7 +177,7 @@ func Pools() (good, bad []Stmt) {
 		}
 	}
 	poison := []string{"]", ")", "FROM", ",", "=", "'lit'", "42"}
-	for _, b := range Base {
+	for _, b := range append(append([]string{}, Base...), extra()...) {
 		add(b, "base")
 		lex := Lexemes(b)
 		// corruptions of the first token: the statement no longer starts with a keyword
